@@ -148,6 +148,9 @@ func (g *Gen) Next() world.Event {
 			if g.R.Intn(4) == 0 {
 				return world.Event{N: n, K: "hostapi", Shard: uint32(g.R.Intn(len(w.Nodes))), ID: world.RemovableFunctions[g.R.Intn(len(world.RemovableFunctions))]}
 			}
+			if g.R.Intn(4) == 0 {
+				return world.Event{N: n, K: "hostapi", Probe: "replace", Shard: uint32(g.R.Intn(len(w.Nodes))), ID: spec.AllFunctions[g.R.Intn(len(spec.AllFunctions))]}
+			}
 			ev := world.Event{N: n, K: "restart", Shard: uint32(g.R.Intn(len(w.Nodes)))}
 			if g.R.Intn(3) == 0 {
 				ev.Probe = "same-factory"
